@@ -17135,7 +17135,8 @@ func getErrorHandlingFromPathAttribute(t BGPAttrType) ErrorHandling {
 	case BGP_ATTR_TYPE_AGGREGATOR:
 		return ERROR_HANDLING_ATTRIBUTE_DISCARD
 	case BGP_ATTR_TYPE_AS4_AGGREGATOR:
-		return ERROR_HANDLING_TREAT_AS_WITHDRAW
+		// RFC 6793 6: discard the attribute and go on with the UPDATE
+		return ERROR_HANDLING_ATTRIBUTE_DISCARD
 	case BGP_ATTR_TYPE_COMMUNITIES:
 		return ERROR_HANDLING_TREAT_AS_WITHDRAW
 	case BGP_ATTR_TYPE_ORIGINATOR_ID:
